@@ -5,7 +5,7 @@ from props import C03
 
 COMBOS = [(True, True), (True, False), (False, True), (False, False)]
 BIG = 30
-RULE = ("generated instruction sets with prefix-sharing / digit-leading / dotted mnemonics and size-static programs over them (with -d "
+RULE = ("generated instruction sets with prefix-sharing / digit-leading / dotted mnemonics (and rules that begin with a parameter, with instructions beginning with a string, number or parenthesis) and size-static programs over them (with -d "
         "defines overriding their constants), size-cascading programs and asm-block programs, the repository's test inputs and "
         "token-level mutants of them; each assembled by asm::assemble under the four combinations of the two switches at budget 30 and "
         "at two tighter budgets, and by the Lean model: at a generous budget all four must agree on success, bits, spans and symbols "
@@ -18,12 +18,37 @@ def body(line):
     return line.split(" iters=")[0] + " syms=" + line.split(" syms=")[1] if line.startswith("ok") else "err"
 
 
+def gen_param_leading(rng):
+    """rules whose pattern begins with a parameter (they live in the empty-prefix bucket of the index) and
+    instructions whose first token is a string, a number, a parenthesis or an identifier"""
+    rules, lines = [], []
+    tails = ["", " emit", ", {n: u8}", " + {n: u8}", " !"]
+    used = rng.sample(tails, rng.randrange(1, 4))
+    for i, t in enumerate(used):
+        prod = "0x%02x @ x" % (0xa0 + i) + (" @ n" if "{n" in t else "")
+        rules.append("    {x: u8}%s => %s" % (t, prod))
+    if rng.random() < 0.5:
+        rules.append("    ld {x: u8} => 0x11 @ x")
+    lines.append("k = %d" % rng.randrange(0, 50))
+    for _ in range(rng.randrange(2, 7)):
+        first = rng.choice(['"A"', '"z"', "5", "0x10", "(2 + 3)", "k", '"B" + 1', "-1 + 2"])
+        t = rng.choice(used)
+        tail = t.replace("{n: u8}", rng.choice(["k", "7", '"C"']))
+        lines.append(first + tail)
+        if rng.random() < 0.2:
+            lines.append("ld %s" % rng.choice(["1", "k"]))
+    return "#ruledef\n{\n" + "\n".join(rules) + "\n}\n" + "\n".join(lines) + "\n"
+
+
 def gen_cases(rng, n):
     base = C03.corpus_files()
     cases = []
     for i in range(n):
         r = rng.random()
         defs = None
+        if r < 0.06:
+            cases.append((gen_param_leading(rng), None, [BIG] + rng.sample([1, 2, 3, 4, 10], 2)))
+            continue
         if r < 0.4:
             p = gen_isa.gen_prog(rng)
             text = gen_isa.render(p, rng)
